@@ -140,7 +140,7 @@ async def _rounds(loop: vloop.VirtualLoop, rng: random.Random, peer: socket.sock
                     await asyncio.sleep(0)
                 except asyncio.CancelledError:
                     task.uncancel()
-        except (OSError, RuntimeError) as exc:  # incl. ssl.SSLError: the stream above the lost bytes is broken
+        except Exception as exc:  # noqa: BLE001  (incl. ssl.SSLError: the stream above the lost bytes is broken; any other failure of a later receive is just as much "the rest of the stream was not delivered")
             on_data(_RecvError(f"{type(exc).__name__}: {exc}"))
             break
     # no armed request may fire later than this point (it would hit the harness's own drain / close code)
@@ -331,6 +331,9 @@ def async_layer(ctx, layer: str, rng: random.Random, sizes: list[int], slots: li
         vloop.run(main)
     except vloop.Quiescent as exc:
         return f"deadlock: {exc}", sockmon.lost_events()
+    except Exception as exc:  # noqa: BLE001
+        # a receive issued after the cancelled ones (final drain, iterator) failed: the rest of the stream was not delivered
+        return f"byte stream not conserved: a later receive failed with {type(exc).__name__}: {exc}", []
     ev = list(sockmon.EVENTS)
     lost = sockmon.lost_events()
     for e in ev:
